@@ -65,6 +65,7 @@ type Unit struct {
 	PanicIsExit bool            // an explicit panic ends the process (allowed) instead of being a safety violation
 	defAxioms   string
 	defAxiomsDone bool
+	localTypes  map[string]*types.TypeName // struct types declared inside function bodies, by bare name (nil entry = ambiguous)
 	OnNoReturn  func(fv *FV, cs *CalleeSpec, st *State)
 	ListIters   map[string]*ListIter // "<type>.<method>" -> list iterator modelled by range-over-func (expr.go, ListIter)
 }
@@ -116,9 +117,40 @@ func LoadUnit(name, dir string, patterns []string, tags string) (*Unit, error) {
 	u := &Unit{Name: name, Pkg: p, Info: p.TypesInfo, Fset: p.Fset, CS: NewContractSet(), Funcs: map[string]*FuncInfo{},
 		heapStruct: map[string]bool{}, datatypes: map[string]*Datatype{}, anonNames: map[string]string{},
 		Assumptions: map[string]bool{}, Refused: map[string]string{}, ExtraCells: map[string]Sort{}, TrustedExt: map[string]*ExtSpec{}}
+	u.CS.GhostVars = u.ExtraCells
+	u.indexLocalTypes()
 	u.classifyStructs()
 	u.indexFuncs()
 	return u, nil
+}
+
+// indexLocalTypes records the named types declared inside function bodies (`type element struct {...}` in tokens.AST), so
+// that contracts can name them (binders `e * element`, cells `element.down`) like package-level types. A name declared
+// more than once, or also at package level, is ambiguous and stays unresolvable.
+func (u *Unit) indexLocalTypes() {
+	u.localTypes = map[string]*types.TypeName{}
+	for id, obj := range u.Info.Defs {
+		tn, ok := obj.(*types.TypeName)
+		if !ok || tn.Parent() == nil || tn.Parent() == u.Pkg.Types.Scope() {
+			continue
+		}
+		if _, isTP := types.Unalias(tn.Type()).(*types.TypeParam); isTP {
+			continue
+		}
+		if _, dup := u.localTypes[id.Name]; dup || u.Pkg.Types.Scope().Lookup(id.Name) != nil {
+			u.localTypes[id.Name] = nil
+			continue
+		}
+		u.localTypes[id.Name] = tn
+	}
+}
+
+// typeByName: package-level type, or a type declared locally in one function body.
+func (u *Unit) typeByName(name string) *types.TypeName {
+	if obj, ok := u.Pkg.Types.Scope().Lookup(name).(*types.TypeName); ok {
+		return obj
+	}
+	return u.localTypes[name]
 }
 
 // classifyStructs decides which named struct types are heap objects: those to which a pointer is
@@ -583,7 +615,7 @@ func (u *Unit) paramSort(p ParamDecl) Sort {
 // lookupTypeName finds a named type by its bare name: in the package itself, then in its direct imports (a heap struct of
 // an imported package, such as the embedded *tree.Tree, is designated by its bare name in cell names).
 func (u *Unit) lookupTypeName(name string) *types.TypeName {
-	if obj, ok := u.Pkg.Types.Scope().Lookup(name).(*types.TypeName); ok {
+	if obj := u.typeByName(name); obj != nil {
 		return obj
 	}
 	for _, imp := range u.Pkg.Types.Imports() {
@@ -702,7 +734,7 @@ func (u *Unit) resolveTypeExpr(e ast.Expr) types.Type {
 	case *ast.StarExpr:
 		return types.NewPointer(u.resolveTypeExpr(t.X))
 	case *ast.Ident:
-		if obj, ok := u.Pkg.Types.Scope().Lookup(t.Name).(*types.TypeName); ok {
+		if obj := u.typeByName(t.Name); obj != nil {
 			return obj.Type()
 		}
 		if obj, ok := types.Universe.Lookup(t.Name).(*types.TypeName); ok {
